@@ -36,8 +36,8 @@ def seeded_table():
 def benign_table():
     idx = json.load(open(os.path.join(V, 'benign', 'INDEX.json')))
     out = ['| round | refactorings | silent on all 20 checks | alarming (property checks that raise) |', '|---|---|---|---|']
-    names = {'r1': 'round 1 (extraction, early returns, guarded defers, locals)', 'r2': 'round 2 (renames, getters/fields, receivers, mirrored tests, loops, inlined-and-deleted helpers)', 'r3': 'round 3 (everyday clean-ups, unseen by the machinery when written)', 'r4': 'round 4 (larger clean-ups mixing several kinds, unseen when written)', 'r5': 'round 5 (aimed at the functions the post-mutation rules read)', 'r6': 'round 6 (aimed at the functions the rules of the fourth seeding round read)', 'r7': 'round 7 (aimed at the functions the rules of the fifth seeding round read)', 'r8': 'round 8 (aimed at the functions the rules of the sixth seeding round read)', 'r9': 'round 9 (aimed at the functions the rules of the seventh seeding round read)', 'r10': 'round 10 (aimed at the functions the rules of the eighth seeding round read)', 'r11': 'round 11 (aimed at the functions the rules of the ninth and tenth seeding rounds read)'}
-    for rn in ('r1', 'r2', 'r3', 'r4', 'r5', 'r6', 'r7', 'r8', 'r9', 'r10', 'r11'):
+    names = {'r1': 'round 1 (extraction, early returns, guarded defers, locals)', 'r2': 'round 2 (renames, getters/fields, receivers, mirrored tests, loops, inlined-and-deleted helpers)', 'r3': 'round 3 (everyday clean-ups, unseen by the machinery when written)', 'r4': 'round 4 (larger clean-ups mixing several kinds, unseen when written)', 'r5': 'round 5 (aimed at the functions the post-mutation rules read)', 'r6': 'round 6 (aimed at the functions the rules of the fourth seeding round read)', 'r7': 'round 7 (aimed at the functions the rules of the fifth seeding round read)', 'r8': 'round 8 (aimed at the functions the rules of the sixth seeding round read)', 'r9': 'round 9 (aimed at the functions the rules of the seventh seeding round read)', 'r10': 'round 10 (aimed at the functions the rules of the eighth seeding round read)', 'r11': 'round 11 (aimed at the functions the rules of the ninth and tenth seeding rounds read)', 'r12': 'round 12 (aimed at the functions the rules of the eleventh seeding round read)'}
+    for rn in ('r1', 'r2', 'r3', 'r4', 'r5', 'r6', 'r7', 'r8', 'r9', 'r10', 'r11', 'r12'):
         es = [e for e in idx if e['id'].startswith(rn + '-')]
         bad = [e for e in es if not e.get('silent')]
         lst = '; '.join(f"{e['id']} ({', '.join(e.get('alarms', []))})" for e in bad) or 'none'
